@@ -11,7 +11,9 @@ CHECKS = {
                      "value of every operand field against two backgrounds, all field pairs over reduced domains, full products "
                      "of small shapes, all 65536 app ids and version byte pairs and all short sequences; the live opcode and "
                      "mnemonic tables are checked for injectivity. Exhaustive inside the stated lattice, so a single- or "
-                     "two-field codec fault cannot hide.",
+                     "two-field codec fault cannot hide. In addition every sequence of up to 3 (thorough 5) operations on one real "
+                     "Subroutine object (encode, len, str, cstructs, set app id, replace or edit the instruction list in place, "
+                     "instantiate) is run and the bytes produced afterwards must decode to the state the object then has.",
                 note="32-bit integers on the boundary lattice only; in-range operands only; CPython ctypes layout on x86-64",
                 ref="3/C01"),
     "C02": dict(cat="exploration", tech="bounded-exhaustive enumeration against an independent reference encoder and a frozen opcode table",
@@ -82,7 +84,8 @@ CHECKS = {
                 text="Straight-line, if (taken / skipped), counted loop, loop exiting to a label just past the end, branch to end, if-in-loop, "
                      "measure-then-if and mov-with-alloc/free skeletons, filled with every gate group [set Q0 a; (set Q1 b;) g] for "
                      "g in {h,x,t,rot_y,cnot,cphase} and every placement over ids {0,1,2}, with the qubit register written by set or by "
-                     "load from an array, debug False and True, are transpiled by the real NVSubroutineTranspiler, serialised and "
+                     "load from an array, debug False and True, plus two two-qubit gates on all 36 pairs of register pairs over Q0..Q2 "
+                     "(straight, loop, if-in-loop, and with a third register written between the gates and used after them), are transpiled by the real NVSubroutineTranspiler, serialised and "
                      "deserialised with the NV flavour, and run on the independent reference VM from a basis, a product and an "
                      "entangled initial state under every measurement script: named registers, arrays, allocation and the full state "
                      "vector (up to global phase) must equal those of the original under vanilla semantics. Statically, every branch "
@@ -114,7 +117,8 @@ CHECKS = {
                      "controller's state vector; after the subroutine the reduced state of every (local_i, remote_i) must be exactly "
                      "Phi+ (or the delivered state when nothing may be corrected) and unrelated qubits untouched. For measure-directly "
                      "results the exact joint distribution of (post-processed receiver outcome, creator outcome) is computed for the six "
-                     "named bases x four Bell states and must equal the Phi+ distribution; mismatching/unnamed bases must raise; "
+                     "named bases x four Bell states and must equal the Phi+ distribution; recv_measure runs through the pipeline for every "
+                     "Bell-state tuple and raw outcome with native and qlink-interface 1.0 responses; mismatching/unnamed bases must raise; "
                      "recv_measure goes through the pipeline for all tuples and raw outcomes.",
                 note="Bell states by name per response format; a receiver cannot name a basis through the API (six bases on EprMeasureResult "
                      "objects); programs the SDK cannot compile on NV (open C09 finding) are counted, not judged; open known findings: "
@@ -177,7 +181,9 @@ CHECKS = {
                      "for every value of each field's boundary lattice (complete for 8-bit fields) against two backgrounds, every "
                      "Signal/ErrorCode member, all returned arrays of length 0..4 (thorough 0..6) over {None,0,1,-1,INT_MAX,INT_MIN} "
                      "and every single-None / single-defined pattern of lengths 5..64; fields are compared with an independently "
-                     "written field list, None must stay None.",
+                     "written field list, None must stay None. In addition every sequence of up to 3 (thorough 4) operations on one "
+                     "real message object per type (serialise, len, str, set a field, edit or replace the value list) is run and the "
+                     "bytes produced afterwards must deserialise to the field values the object then has.",
                 note="32-bit fields on the boundary lattice; values inside declared widths",
                 ref="3/C15"),
     "C16": dict(cat="exploration", tech="bounded-exhaustive enumeration of out-of-range operands over three entry routes",
